@@ -13,4 +13,4 @@ const verifBoundIdxGarbage = 96
 var verifBoundFSModes = [5]bool{true, true, true, true, true}
 const verifBoundFSCorruptMetaOnly = false
 const verifBoundFSCommits = 2
-const verifBoundROTail = 10
+const verifBoundROTail = 7
